@@ -8,6 +8,7 @@ import (
 	"strings"
 
 	"github.com/Vedant9500/WTF/internal/database"
+	"github.com/Vedant9500/WTF/internal/recovery"
 	"github.com/Vedant9500/WTF/internal/zzverif/vlib"
 )
 
@@ -146,6 +147,22 @@ func engineSearchInv(ctx *Ctx) {
 			}
 			q := vlib.GenQuery(r, words, nw, kind)
 			switch r.Intn(25) {
+			case 4, 5, 6: // nothing the engine can match, but several words are fragments of one entry: only the recovery ladder answers
+				if len(cmds) > 0 {
+					c := cmds[r.Intn(len(cmds))]
+					f := strings.Fields(c.Command + " " + c.Description)
+					frag := func() string {
+						w := f[r.Intn(len(f))]
+						if len(w) > 4 {
+							return w[1 : len(w)-1]
+						}
+						return w
+					}
+					q = "zzqxj " + frag() + " " + frag()
+					if r.Intn(2) == 0 {
+						q += " " + frag()
+					}
+				}
 			case 0:
 				q = ""
 			case 1:
@@ -195,6 +212,20 @@ func engineSearchInv(ctx *Ctx) {
 					}
 				}
 				ctx.R.Path(path, 1)
+				// the last-resort recovery searches the CLI falls back to when the engine finds nothing: same invariants
+				// (the CLI cuts the list to the limit; the count is checked at the CLI)
+				if len(res) == 0 && oi == 0 {
+					cs.Entry = "RecoverFromSearchFailure"
+					ctx.R.Guard("C01", cs.Entry, cs, func() {
+						rec, err := recovery.NewSearchRecovery().RecoverFromSearchFailure(q, nil, db)
+						if err == nil && len(rec) > 0 {
+							ctx.R.Path("recovery-answers", 1)
+							for _, is := range vlib.CheckInvariants(cmds, len(cmds)+1, rec) {
+								ctx.R.Violate(vlib.Violation{Property: "C01", Clause: is.Clause, Path: cs.Entry, Detail: is.Detail, Witness: cs})
+							}
+						}
+					})
+				}
 
 				// Search(q, limit)
 				cs.Entry = "Search"
@@ -228,6 +259,21 @@ func engineSearchInv(ctx *Ctx) {
 						ctx.R.Path("cached", 1)
 					}
 				})
+				if oi == 1 {
+					// the same query under a sequence of different limits on one caching wrapper (non-positive ones included)
+					cs.Entry = "SearchWithOptionsAndCache/limit-sequence"
+					ctx.R.Guard("C01", cs.Entry, cs, func() {
+						for _, lim := range [][]int{{0, 5}, {-3, 5, 1}, {5, 0}, {10, 3, -1, 5}, {0, 1}}[r.Intn(5)] {
+							ol := o
+							ol.Limit = lim
+							csl := cs
+							csl.Opts = vlib.OptsJ(ol)
+							checkList(ctx, "C01", csl, cmds, lim, cdb.SearchWithOptionsAndCache(q, ol))
+							checkList(ctx, "C01", csl, cmds, lim, cdb.SearchWithCache(q, lim))
+							ctx.R.Path("cached-limit-sequence-steps", 1)
+						}
+					})
+				}
 				if oi == 0 {
 					cs.Entry = "SearchWithCache"
 					ctx.R.Guard("C01", cs.Entry, cs, func() {
